@@ -121,6 +121,7 @@ def run(ctx):
             # the secure session is fine but the answer to the re-subscription is not what the pairing can digest (valid JSON of another shape):
             # attempt after attempt; whatever the owner's callback raises, the connection it was made on does not stay behind
             (dict(hosts=["10.0.0.1"], rounds=4, subscriptions=True, triggers=["zc-same", "ensure", "close", "drop"], behaviours=["ok", "ok-bad-subscribe-reply"], preemptive_triggers=False), 2),
+            (dict(hosts=["10.0.0.1"], rounds=4, triggers=["zc-same", "ensure", "close", "drop"], behaviours=["ok", "bad-tag", "short-key"], preemptive_triggers=False), 2),
             # shut down (from connected / from retrying): announcements and callers keep arriving afterwards
             (dict(hosts=["10.0.0.1"], rounds=4, triggers=trig, prelude=["ok|10.0.0.1|ok", "shutdown"]), 2),
             (dict(hosts=["10.0.0.1"], rounds=4, triggers=trig, prelude=["refuse", "shutdown"]), 2),
